@@ -8,9 +8,11 @@ import (
 	"encoding/json"
 	"fmt"
 	"log/slog"
+	"math"
 	"net/http"
 	"net/http/httptest"
 	"path/filepath"
+	"reflect"
 	"sort"
 	"strings"
 	"sync"
@@ -25,17 +27,42 @@ import (
 
 // ---- names <-> model keys
 
+// c09MaxNames: keys 1..c09MaxNames exist for domains and clients (more than
+// the 100 that survive serialisation); random updates use the first few.
+const c09MaxNames = 135
+
 var (
-	c09Domains   = []string{"", "d1.example", "d2.example", "d3.example", "d4.example"}
-	c09Clients   = []string{"", "10.0.0.1", "10.0.0.2", "fe80::3"}
+	c09Domains = c09MakeNames(func(i int) string { return fmt.Sprintf("d%d.example", i) })
+	c09Clients = c09MakeNames(func(i int) string {
+		if i == 3 {
+			return "fe80::3"
+		}
+		return fmt.Sprintf("10.0.%d.%d", i/200, 1+i%200)
+	})
 	c09Upstreams = []string{"", "8.8.8.8:53", "1.1.1.1:53", "tls://9.9.9.9"}
 )
 
+func c09MakeNames(f func(int) string) []string {
+	l := make([]string, c09MaxNames+1)
+	for i := 1; i <= c09MaxNames; i++ {
+		l[i] = f(i)
+	}
+	return l
+}
+
+var c09KeyMaps = map[*string]map[string]int64{}
+
 func c09Key(names []string, n string) int64 {
-	for i, s := range names {
-		if s == n {
-			return int64(i)
+	km := c09KeyMaps[&names[0]]
+	if km == nil {
+		km = map[string]int64{}
+		for i, s := range names {
+			km[s] = int64(i)
 		}
+		c09KeyMaps[&names[0]] = km
+	}
+	if i, ok := km[n]; ok {
+		return i
 	}
 	return -1
 }
@@ -45,12 +72,22 @@ const c09MsHour = 3600000
 // ---- operations
 
 type c09Op struct {
-	Kind string `json:"op"` // update flush restart clear setdays putconfig
+	Kind string `json:"op"` // update flush restart clear setdays putconfig reset
 	// update
 	Res int   `json:"res,omitempty"`
 	Dom int   `json:"dom,omitempty"`
 	Cli int   `json:"cli,omitempty"`
 	Ups []int `json:"ups,omitempty"` // upstream key*4 + (cached?1:0) + (error?2:0)
+	T   int64 `json:"t_ns,omitempty"` // processing time in nanoseconds
+	// no observation after this step (inside a burst of updates)
+	Skip bool `json:"skip,omitempty"`
+	// reset: POST /control/stats_reset with clear() paused on the debug record
+	// Window ("database closed": db pointer nil; "database opened": new
+	// database stored, current unit not yet replaced); there the clock moves
+	// to ID and the hourly flush runs if confMu is free.  Landed is filled in
+	// by apply: the flush ran inside the window.
+	Window string `json:"window,omitempty"`
+	Landed bool   `json:"landed,omitempty"`
 	// clock after the step's advance (flush, restart, clear, setdays)
 	ID uint32 `json:"id,omitempty"`
 	// setdays
@@ -67,7 +104,7 @@ func (o c09Op) coq() string {
 		for _, u := range o.Ups {
 			ups = append(ups, fmt.Sprintf("(%d, %s)", u/4, vfBool(u%4 == 0)))
 		}
-		return fmt.Sprintf("OUpdate (mkE %s %d %d %s)", c09Int(int64(o.Res)), o.Dom, o.Cli, vfList("Z * bool", ups))
+		return fmt.Sprintf("OUpdate (mkE %s %d %d %s %d)", c09Int(int64(o.Res)), o.Dom, o.Cli, vfList("Z * bool", ups), o.T/1000)
 	case "flush":
 		return fmt.Sprintf("OFlush %d", o.ID)
 	case "restart":
@@ -81,6 +118,35 @@ func (o c09Op) coq() string {
 	}
 	panic("bad op")
 }
+
+// coqSteps: the model operations of one harness step with its observation;
+// a reset is its three steps, with the flush where it ran.
+func (o c09Op) coqSteps(ob string) []string {
+	if o.Kind != "reset" {
+		return []string{"(" + o.coq() + ", " + ob + ")"}
+	}
+	fl := fmt.Sprintf("(OFlush %d, ObsSkip)", o.ID)
+	steps := []string{"(OClearClose, ObsSkip)"}
+	if o.Landed && o.Window == c09WinClosed {
+		steps = append(steps, fl)
+	}
+	steps = append(steps, "(OClearReopen, ObsSkip)")
+	if o.Landed && o.Window == c09WinOpened {
+		steps = append(steps, fl)
+	}
+	if o.Landed {
+		steps = append(steps, fmt.Sprintf("(OClearFinish %d, %s)", o.ID, ob))
+	} else {
+		// The handler held confMu: the flush ran after the reset.
+		steps = append(steps, fmt.Sprintf("(OClearFinish %d, ObsSkip)", o.ID), fmt.Sprintf("(OFlush %d, %s)", o.ID, ob))
+	}
+	return steps
+}
+
+const (
+	c09WinClosed = "database closed"
+	c09WinOpened = "database opened"
+)
 
 func c09Int(i int64) string {
 	if i < 0 {
@@ -99,6 +165,7 @@ const (
 	c09ErrStats  = 8  // GET /control/stats did not answer 200 / undecodable
 	c09ErrLogged = 16 // the code logged at error level during the step
 	c09ErrDB     = 32 // the database file could not be read back
+	c09ErrStop   = 64 // flush told the periodic flusher to stop although there is a current unit
 )
 
 type c09Obs struct {
@@ -113,6 +180,7 @@ type c09Obs struct {
 	Series   [4][]uint64 // dns, blocked, sb, parental
 	Tops     [4][][2]int64
 	DB       [][2]int64
+	Avg      int64 // avg_processing_time, whole microseconds
 	ErrMsgs  []string
 }
 
@@ -147,9 +215,9 @@ func (o *c09Obs) coq() string {
 	for i := range o.Tops {
 		tops[i] = c09Pairs(o.Tops[i])
 	}
-	return fmt.Sprintf("Obs %s %d %d %s %d %s %s %d %s %s %s", vfBool(o.Panicked), o.Err, o.CfgMs, vfBool(o.CfgEn),
+	return fmt.Sprintf("Obs %s %d %d %s %d %s %s %d %s %s %s %d", vfBool(o.Panicked), o.Err, o.CfgMs, vfBool(o.CfgEn),
 		o.CurID, vfList("Z", tot), vfBool(o.Days), o.Len, vfList("list (Z * Z)", ser),
-		vfList("list (Z * Z)", tops), c09Pairs(o.DB))
+		vfList("list (Z * Z)", tops), c09Pairs(o.DB), o.Avg)
 }
 
 // ---- the system under test plus the harness' own bookkeeping
@@ -181,6 +249,15 @@ type c09Sim struct {
 	// restart-same-hour-then-write: 1 after a restart in the same hour, 2 after
 	// an accepted update following it.
 	rsw int
+
+	// Microseconds and updates counted in the hour that is current.
+	hourUs, hourN uint64
+	// Hour ids so small that id-limit-1 wraps: outside the property's domain
+	// (real hours are about 5e5); the model is still compared.
+	exempt bool
+
+	// hook, when set, is called with the message of every debug record.
+	hook func(msg string)
 }
 
 func (m *c09Sim) fail(bit int, f string, a ...any) {
@@ -195,8 +272,16 @@ func (m *c09Sim) fail(bit int, f string, a ...any) {
 // c09LogHandler turns error-level log records of the code into observables.
 type c09LogHandler struct{ m *c09Sim }
 
-func (h c09LogHandler) Enabled(_ context.Context, l slog.Level) bool { return l >= slog.LevelError }
+func (h c09LogHandler) Enabled(_ context.Context, l slog.Level) bool {
+	return l >= slog.LevelError || h.m.hook != nil
+}
 func (h c09LogHandler) Handle(_ context.Context, r slog.Record) error {
+	if r.Level < slog.LevelError {
+		if hook := h.m.hook; hook != nil && r.Level == slog.LevelDebug {
+			hook(r.Message)
+		}
+		return nil
+	}
 	if r.Message == "http error" {
 		// aghhttp.ErrorAndLog: a rejected request; the status code is observed instead.
 		return nil
@@ -257,7 +342,7 @@ func c09Entry(o c09Op) *Entry {
 		Client:         c09Clients[o.Cli],
 		Domain:         c09Domains[o.Dom],
 		Result:         Result(o.Res),
-		ProcessingTime: time.Duration(1+o.Dom*7+o.Cli) * time.Millisecond,
+		ProcessingTime: time.Duration(o.T),
 	}
 	for _, u := range o.Ups {
 		us := &proxy.UpstreamStatistics{Address: c09Upstreams[u/4], QueryDuration: time.Duration(u+1) * time.Millisecond}
@@ -276,6 +361,14 @@ func (m *c09Sim) inWindow(i uint32) bool {
 }
 
 func (m *c09Sim) noteLimit(newH uint32) {
+	if newH != m.limH {
+		// An hour with counted updates sits exactly at the edge of the new window.
+		for h, g := range m.ghost {
+			if g[0] > 0 && (h+newH == m.unitHour || h+newH == m.unitHour+1) {
+				m.classes["limit-change-at-window-edge"] = true
+			}
+		}
+	}
 	if newH > m.limH {
 		m.raised = true
 		m.classes["limit-raised"] = true
@@ -283,6 +376,21 @@ func (m *c09Sim) noteLimit(newH uint32) {
 		m.classes["limit-lowered"] = true
 	}
 	m.limH = newH
+}
+
+// flush runs the hourly flush once, as periodicFlush does.
+func (m *c09Sim) flush() {
+	if cont, _ := m.s.flush(); !cont {
+		m.fail(c09ErrStop, "flush returned cont=false: the periodic flusher would stop")
+	}
+}
+
+// noteHourEnd classifies the hour that stops being current.
+func (m *c09Sim) noteHourEnd() {
+	if m.hourN > 0 && m.hourUs/m.hourN == 0 {
+		m.classes["hour-avg-below-1us"] = true
+	}
+	m.hourUs, m.hourN = 0, 0
 }
 
 func (m *c09Sim) noteRollover(id uint32) {
@@ -305,10 +413,10 @@ func (m *c09Sim) noteClear(id uint32) {
 }
 
 // apply runs one operation on the real code and updates the ghost state.
-func (m *c09Sim) apply(o c09Op) (panicked bool) {
+func (m *c09Sim) apply(o *c09Op) (panicked bool) {
 	switch o.Kind {
 	case "update":
-		e := c09Entry(o)
+		e := c09Entry(*o)
 		func() {
 			defer func() {
 				if p := recover(); p != nil {
@@ -334,6 +442,8 @@ func (m *c09Sim) apply(o c09Op) (panicked bool) {
 			g[0]++
 			g[o.Res]++
 			m.nAccepted++
+			m.hourUs += uint64(o.T / 1000)
+			m.hourN++
 			m.classes["update-accepted"] = true
 			if m.rsw == 1 {
 				m.rsw = 2
@@ -344,7 +454,7 @@ func (m *c09Sim) apply(o c09Op) (panicked bool) {
 		}
 	case "flush":
 		m.hour.Store(o.ID)
-		m.s.flush()
+		m.flush()
 		if o.ID == m.unitHour {
 			m.classes["flush-same-hour"] = true
 		} else {
@@ -361,6 +471,7 @@ func (m *c09Sim) apply(o c09Op) (panicked bool) {
 				m.classes["restart-same-hour-then-write"] = true
 			}
 			m.rsw = 0
+			m.noteHourEnd()
 			m.noteRollover(o.ID)
 			m.unitHour = o.ID
 		}
@@ -375,6 +486,9 @@ func (m *c09Sim) apply(o c09Op) (panicked bool) {
 		if err := m.s.Close(); err != nil {
 			m.fail(c09ErrClose, "Close: %v", err)
 		}
+		// The periodic flusher is still running after Close: with the database
+		// pointer nil its flush changes nothing and asks to be called again.
+		m.flush()
 		s, err := New(m.conf(dc.Limit.Milliseconds(), dc.Enabled))
 		if err != nil {
 			m.fail(c09ErrNew, "New after Close: %v", err)
@@ -389,9 +503,46 @@ func (m *c09Sim) apply(o c09Op) (panicked bool) {
 		} else {
 			m.classes["restart-later-hour"] = true
 			m.rsw = 0
+			m.noteHourEnd()
 		}
 		m.noteRollover(o.ID)
 		m.unitHour = o.ID
+	case "reset":
+		// clear() is paused on a debug record; the clock moves and the hourly
+		// flush runs there unless the handler holds confMu (then it runs
+		// right after the reset, as the blocked flusher would).
+		armed := true
+		m.hook = func(msg string) {
+			if !armed || msg != o.Window {
+				return
+			}
+			armed = false
+			m.hour.Store(o.ID)
+			if m.s.confMu.TryRLock() {
+				m.s.confMu.RUnlock()
+				o.Landed = true
+				m.flush()
+			}
+		}
+		w := m.call("POST", "/control/stats_reset", "")
+		m.hook = nil
+		if w.Code != http.StatusOK {
+			m.fail(c09ErrReset, "stats_reset: %d %s", w.Code, strings.TrimSpace(w.Body.String()))
+		}
+		if armed {
+			m.fail(c09ErrReset, "stats_reset: clear() did not log %q", o.Window)
+			m.hour.Store(o.ID)
+		}
+		if !o.Landed {
+			m.flush()
+		}
+		m.rsw = 0
+		m.classes["reset-with-flush-at-"+strings.ReplaceAll(o.Window, " ", "-")] = true
+		if o.Landed {
+			m.classes["reset-not-under-confmu"] = true
+		}
+		m.noteHourEnd()
+		m.noteClear(o.ID)
 	case "clear":
 		m.hour.Store(o.ID)
 		w := m.call("POST", "/control/stats_reset", "")
@@ -400,6 +551,7 @@ func (m *c09Sim) apply(o c09Op) (panicked bool) {
 		}
 		m.rsw = 0
 		m.classes["clear"] = true
+		m.noteHourEnd()
 		m.noteClear(o.ID)
 	case "setdays":
 		m.hour.Store(o.ID)
@@ -411,6 +563,7 @@ func (m *c09Sim) apply(o c09Op) (panicked bool) {
 			m.rsw = 0
 			m.classes["setdays-0-disable-and-clear"] = true
 			m.enabled = false
+			m.noteHourEnd()
 			m.noteClear(o.ID)
 		default:
 			m.classes["setdays-n"] = true
@@ -476,6 +629,16 @@ func (m *c09Sim) observe(panicked bool) (o *c09Obs) {
 		resp.NumReplacedSafesearch, resp.NumReplacedParental}
 	o.Tops = [4][][2]int64{c09Tops(c09Domains, resp.TopQueried), c09Tops(c09Domains, resp.TopBlocked),
 		c09Tops(c09Clients, resp.TopClients), c09Tops(c09Upstreams, resp.TopUpstreamsResponses)}
+	// float64(whole microseconds) * 1e-6, below 2^32: the rounding is exact.
+	o.Avg = int64(math.Round(resp.AvgProcessingTime * 1e6))
+	for i := range o.Tops[:3] {
+		if len(o.Tops[i]) == maxDomains {
+			m.classes["top-list-cut-to-100"] = true
+		}
+	}
+	if resp.NumDNSQueries > 0 && o.Avg == 0 {
+		m.classes["avg-time-zero-with-queries"] = true
+	}
 
 	func() {
 		m.s.confMu.RLock()
@@ -528,6 +691,10 @@ func (m *c09Sim) monitor(o *c09Obs) (ok bool, key, msg string) {
 	if o.Err != 0 {
 		return fail("c09-op-error", "operation failed (error classes %d): %s", o.Err, strings.Join(o.ErrMsgs, "; "))
 	}
+	if m.exempt {
+		m.classes["hour-id-below-limit-uint32-wrap"] = true
+		return true, "", ""
+	}
 	if o.CurID != m.unitHour {
 		return fail("c09-current-hour", "current unit is %d, expected %d", o.CurID, m.unitHour)
 	}
@@ -577,6 +744,9 @@ func (m *c09Sim) monitor(o *c09Obs) (ok bool, key, msg string) {
 	if wantDays {
 		wantLen = int(m.limH / 24)
 		m.classes["daily-series"] = true
+		if m.limH%24 != 0 {
+			m.classes["daily-series-limit-not-multiple-of-24"] = true
+		}
 		if m.unitHour%24 == 0 {
 			m.classes["daily-series-at-day-boundary"] = true
 		}
@@ -640,8 +810,31 @@ func c09GenLimitMs(r *vfRand, big bool) int64 {
 	return vfPick(r, c09Limits) * c09MsHour
 }
 
-func c09GenUpdate(r *vfRand) c09Op {
-	o := c09Op{Kind: "update", Res: 1 + r.Intn(5), Dom: 1 + r.Intn(4), Cli: 1 + r.Intn(3)}
+// c09GenTime picks a processing time in nanoseconds; in a fast hour nearly
+// every query takes less than a microsecond (the hour's TimeAvg is 0).
+func c09GenTime(r *vfRand, fast bool) int64 {
+	if fast {
+		if r.Chance(1, 12) {
+			return int64(r.Range(1000, 2500))
+		}
+		return vfPick(r, []int64{0, 0, 300, 999})
+	}
+	switch r.Intn(8) {
+	case 0:
+		return 0
+	case 1:
+		return int64(r.Range(1, 999))
+	case 2:
+		return int64(r.Range(1000, 99999))
+	case 3:
+		return int64(r.Range(1, 4)) * int64(time.Second)
+	default:
+		return int64(r.Range(100, 90000)) * 1000
+	}
+}
+
+func c09GenUpdate(r *vfRand, fast bool) c09Op {
+	o := c09Op{Kind: "update", Res: 1 + r.Intn(5), Dom: 1 + r.Intn(4), Cli: 1 + r.Intn(3), T: c09GenTime(r, fast)}
 	switch r.Intn(40) {
 	case 0:
 		o.Res = 0
@@ -686,12 +879,48 @@ func c09GenAdvance(r *vfRand, limH uint32, allowZero bool) uint32 {
 	}
 }
 
+// c09GenBurst: more names than survive serialisation in one hour.  Names
+// 1..100 are counted twice, the rest once, so that the 100th and the 101st
+// count differ (which of several names tied at the cut survive is not
+// determined by the code); only the last update of the burst is observed.
+func c09GenBurst(r *vfRand, fast bool) (ops []c09Op) {
+	n := int(r.Range(101, c09MaxNames))
+	kind := r.Intn(4) // 0 domains, 1 blocked domains, 2 clients, 3 domains and clients
+	res := 1
+	if kind == 1 {
+		res = 2 + r.Intn(4)
+	}
+	for round := 0; round < 2; round++ {
+		top := n
+		if round == 1 {
+			top = 100
+		}
+		for i := 1; i <= top; i++ {
+			o := c09Op{Kind: "update", Res: res, Dom: 1 + i%4, Cli: 1 + i%3, T: c09GenTime(r, fast), Skip: true}
+			if kind != 2 {
+				o.Dom = i
+			}
+			if kind >= 2 {
+				o.Cli = i
+			}
+			ops = append(ops, o)
+		}
+	}
+	ops[len(ops)-1].Skip = false
+	return ops
+}
+
 func c09GenHistory(r *vfRand, steps int) (id0 uint32, ms int64, en bool, ops []c09Op) {
 	id0 = uint32(r.Range(480000, 500000))
 	if r.Chance(1, 4) {
 		id0 -= id0 % 24 // midnight
 	}
 	big := r.Chance(1, 12)
+	bursts := 0
+	if !big && r.Chance(1, 14) {
+		bursts = 1 + r.Intn(2)
+	}
+	fast := r.Chance(1, 3)
 	if big && steps > 14 {
 		steps = 14
 	}
@@ -703,8 +932,15 @@ func c09GenHistory(r *vfRand, steps int) (id0 uint32, ms int64, en bool, ops []c
 	for len(ops) < steps {
 		switch k := r.Intn(100); {
 		case k < 55:
+			if bursts > 0 && r.Chance(1, 3) {
+				bursts--
+				b := c09GenBurst(r, fast)
+				ops = append(ops, b...)
+				steps += len(b)
+				continue
+			}
 			for n := 1 + r.Intn(3); n > 0; n-- {
-				ops = append(ops, c09GenUpdate(r))
+				ops = append(ops, c09GenUpdate(r, fast))
 			}
 		case k < 75:
 			d := c09GenAdvance(r, limH, true)
@@ -713,10 +949,13 @@ func c09GenHistory(r *vfRand, steps int) (id0 uint32, ms int64, en bool, ops []c
 			}
 			if r.Chance(1, 6) && d > 0 {
 				// The clock moves first; updates land in the unit that is still current.
-				ops = append(ops, c09GenUpdate(r))
+				ops = append(ops, c09GenUpdate(r, fast))
 			}
 			clock += d
 			ops = append(ops, c09Op{Kind: "flush", ID: clock})
+			if d > 0 {
+				fast = r.Chance(1, 3)
+			}
 		case k < 83:
 			d := c09GenAdvance(r, limH, true)
 			if r.Chance(1, 2) || d > 100000 {
@@ -753,7 +992,13 @@ func c09GenHistory(r *vfRand, steps int) (id0 uint32, ms int64, en bool, ops []c
 			if r.Chance(1, 3) {
 				clock += uint32(r.Intn(3))
 			}
-			ops = append(ops, c09Op{Kind: "clear", ID: clock})
+			if r.Chance(1, 2) {
+				// The hour turns while clear() runs.
+				clock += uint32(r.Intn(3))
+				ops = append(ops, c09Op{Kind: "reset", ID: clock, Window: vfPick(r, []string{c09WinClosed, c09WinOpened})})
+			} else {
+				ops = append(ops, c09Op{Kind: "clear", ID: clock})
+			}
 		}
 	}
 	return id0, ms, en, ops
@@ -767,6 +1012,8 @@ func c09RunHistory(t *testing.T, out *vfOut, name string, id0 uint32, ms int64, 
 			_ = m.s.Close()
 		}
 	}()
+	// The theorems assume hour ids >= 8762 (id-limit-1 does not wrap).
+	m.exempt = id0 < 8762
 
 	steps := make([]string, 0, len(ops))
 	ok, key, msg := true, "", ""
@@ -781,14 +1028,24 @@ func c09RunHistory(t *testing.T, out *vfOut, name string, id0 uint32, ms int64, 
 		if m.dead {
 			break
 		}
-		p := m.apply(o)
+		p := m.apply(&o)
+		planned[i] = o
+		if o.Skip && !p {
+			m.errMu.Lock()
+			clean := m.errBits == 0
+			m.errMu.Unlock()
+			if clean {
+				steps = append(steps, o.coqSteps("ObsSkip")...)
+				continue
+			}
+		}
 		ob := m.observe(p)
 		if ok {
 			if sok, k, mm := m.monitor(ob); !sok {
-				ok, key, msg = false, k, fmt.Sprintf("step %d (%s): %s", i, o.coq(), mm)
+				ok, key, msg = false, k, fmt.Sprintf("step %d (%s): %s", i, strings.Join(o.coqSteps("_"), " "), mm)
 			}
 		}
-		steps = append(steps, "("+o.coq()+", "+ob.coq()+")")
+		steps = append(steps, o.coqSteps(ob.coq())...)
 	}
 	classes := make([]string, 0, len(m.classes))
 	for c := range m.classes {
@@ -809,7 +1066,24 @@ func c09RunHistory(t *testing.T, out *vfOut, name string, id0 uint32, ms int64, 
 }
 
 func c09Upd(res, dom, cli int, ups ...int) c09Op {
-	return c09Op{Kind: "update", Res: res, Dom: dom, Cli: cli, Ups: ups}
+	return c09Op{Kind: "update", Res: res, Dom: dom, Cli: cli, Ups: ups, T: int64(1+dom*7+cli) * int64(time.Millisecond)}
+}
+
+// c09Fast: an update that takes t nanoseconds.
+func c09Fast(res, dom, cli int, t int64) c09Op {
+	return c09Op{Kind: "update", Res: res, Dom: dom, Cli: cli, T: t}
+}
+
+// c09Names: one hour with n distinct domains and clients; the first 100 are
+// counted twice (see c09GenBurst).
+func c09Names(n int, res int) (ops []c09Op) {
+	for _, top := range []int{n, 100} {
+		for i := 1; i <= top; i++ {
+			ops = append(ops, c09Op{Kind: "update", Res: res, Dom: i, Cli: i, T: 900, Skip: true})
+		}
+	}
+	ops[len(ops)-1].Skip = false
+	return ops
 }
 
 // c09Prelude: one constructed history per branch class, independent of the seed.
@@ -871,12 +1145,53 @@ func c09Prelude() (hs []struct {
 	hs[len(hs)-1].ms = 2*c09MsHour + 1799999
 	add("a year", b, 8760, true, seq(all5, []c09Op{fl(b + 8759)}, all5[:1], []c09Op{fl(b + 8760)})...)
 	add("update lands in the stale unit after the hour changed", b, 3, true, seq(all5, []c09Op{fl(b + 1)}, all5[:2], []c09Op{fl(b + 2)})...)
+	// Reset with the hour turning while clear() runs: the flush attempted with
+	// the database pointer nil, and after the new database was opened; the
+	// roll-over goes on afterwards.
+	reset := func(id uint32, w string) c09Op { return c09Op{Kind: "reset", ID: id, Window: w} }
+	add("reset, flush while the database is closed", b, 24, true, seq(all5, []c09Op{fl(b + 1)}, all5, []c09Op{reset(b+2, c09WinClosed)},
+		all5[:2], []c09Op{fl(b + 3)}, all5[:1], []c09Op{fl(b + 4)})...)
+	add("reset, flush after the new database was opened", b, 24, true, seq(all5, []c09Op{fl(b + 1)}, all5, []c09Op{reset(b+2, c09WinOpened)},
+		all5[:2], []c09Op{fl(b + 3)}, all5[:1], []c09Op{fl(b + 4), rs(b + 4)})...)
+	add("reset in the same hour, both windows", b, 3, true, seq(all5, []c09Op{reset(b, c09WinOpened)}, all5, []c09Op{reset(b, c09WinClosed), fl(b + 1)})...)
+	// Average processing time: an hour below a microsecond on average has
+	// TimeAvg 0 and still counts; the mean is over the non-zero hours.
+	add("hours with an average below 1 us between slower ones", b, 24, true, seq(all5, []c09Op{fl(b + 1)},
+		[]c09Op{c09Fast(1, 1, 1, 0), c09Fast(2, 2, 2, 300), c09Fast(3, 1, 1, 999), fl(b + 2),
+			c09Fast(1, 1, 1, 1000), c09Fast(1, 2, 1, 2999), fl(b + 3), fl(b + 4),
+			c09Fast(4, 3, 2, 999), c09Fast(5, 3, 2, 1001), c09Fast(5, 3, 2, 0), fl(b + 5), rs(b + 5), rs(b + 6)})...)
+	add("only sub-microsecond queries: average 0 with queries", b, 3, true, c09Fast(1, 1, 1, 0), c09Fast(2, 1, 2, 500), fl(b+1), c09Fast(1, 2, 2, 999), rs(b+1), fl(b+2))
+	add("remainder of the time sum lost on restart in the same hour", b, 24, true, c09Fast(1, 1, 1, 1000), c09Fast(1, 1, 1, 2000), c09Fast(1, 1, 1, 2000),
+		rs(b), c09Fast(1, 1, 1, 1000), fl(b+1))
+	// More than 100 names in one hour.
+	add("120 domains and clients in one hour, next hour, restart", b, 24, true, seq(c09Names(120, 1), []c09Op{fl(b + 1)}, all5, []c09Op{rs(b + 1), fl(b + 2)})...)
+	add("130 blocked domains, restart in the same hour, more of them", b, 24, true, seq(c09Names(130, 2), []c09Op{rs(b)}, c09Names(105, 3), []c09Op{fl(b + 1), rs(b + 2)})...)
+	// uint32 arithmetic on hour ids below the limit: id-limit-1 wraps and New
+	// deletes every bucket (outside the property's domain; model compared).
+	add("hour ids below the limit: id-limit-1 wraps", 5, 24, true, seq(all5, []c09Op{fl(6)}, all5[:2], []c09Op{rs(6)}, all5[:1], []c09Op{fl(7), rs(7), fl(30), rs(40)})...)
+	add("hour id just above the limit: no wrap", 26, 24, true, seq(all5, []c09Op{fl(27)}, all5[:2], []c09Op{rs(27)}, all5[:1], []c09Op{fl(28), rs(28)})...)
+	// Limit changes with counted hours exactly at the edge of the new window.
+	add("limit lowered and raised with hours at the edge of the window", b, 5, true, seq(all5, []c09Op{fl(b + 1)}, all5[:3], []c09Op{fl(b + 2)}, all5[:2],
+		[]c09Op{fl(b + 4), {Kind: "putconfig", Ms: 4 * c09MsHour, En: true}, {Kind: "putconfig", Ms: 3 * c09MsHour, En: true}, fl(b + 5),
+			{Kind: "putconfig", Ms: 6 * c09MsHour, En: true}, rs(b + 5), {Kind: "putconfig", Ms: 4 * c09MsHour, En: true}, rs(b + 6)})...)
+	// Daily series with a limit that is not a whole number of days.
+	add("daily series, limit 200 h (8 days 8 h)", d0+3, 200, true, seq(all5, []c09Op{fl(d0 + 10)}, all5[:3], []c09Op{fl(d0 + 24)}, all5[:2],
+		[]c09Op{fl(d0 + 190), fl(d0 + 199)}, all5[:1], []c09Op{fl(d0 + 200), fl(d0 + 202), fl(d0 + 216)})...)
 	return hs
 }
 
 func TestVerifC09(t *testing.T) {
 	out := vfOpen(t, "C09")
 	defer out.Close()
+
+	// The database pointer is not under a mutex: it has to be an atomic one
+	// (C09_mutual_exclusion covers the fields under currMu / confMu).
+	if f, ok := reflect.TypeOf(StatsCtx{}).FieldByName("db"); !ok || !strings.HasPrefix(f.Type.String(), "atomic.Pointer[") {
+		out.Emit(vfCase{Coq: "(CHist 490000 3600000 true (@nil (op * obs)))%Z", MonitorOK: false,
+			MonitorMsg:  "StatsCtx.db is not an atomic.Pointer: it is read and written outside currMu/confMu",
+			FindingKey: "c09-db-pointer-not-atomic", Desc: map[string]any{"name": "db field type"}})
+	}
+	out.Class("db-pointer-atomic")
 
 	for _, h := range c09Prelude() {
 		c09RunHistory(t, out, h.name, h.id0, h.ms, h.en, h.ops)
@@ -941,7 +1256,7 @@ func c09Concurrent(t *testing.T, out *vfOut) {
 		rg.Wait()
 		m.unitHour = b + 12
 		if round%2 == 1 {
-			m.apply(c09Op{Kind: "restart", ID: b + 12})
+			m.apply(&c09Op{Kind: "restart", ID: b + 12})
 		}
 		ob := m.observe(false)
 		ok, msg := true, ""
